@@ -24,6 +24,9 @@ separated by `,`, ops by `;`, groups by `|`. A file is `absent`, `t <code points
 * `dload <chartab> | <disk>` → `ok <reload>`
 * `dsave <ws>` → `ok F <cps> C <byte length of every write syscall>`
 * `dchunk <cap> <pieces>` → `ok <byte length of every write>` (the `BufWriter` rule alone)
+* `dfp <userA> , <fileA> | <userB> , <fileB>` → `ok 1` when the two merged dictionaries
+  [curated, user, file] (children given in `words_iter` order) compare equal under an injective
+  hash, `ok 0` otherwise
 -/
 namespace Harper.Driver.DictIO
 open Harper Harper.Proto Harper.Spell Harper.DictIO
@@ -235,5 +238,21 @@ def handleDchunk (args : List String) : String :=
       else joinSp ("ok" :: (chunkGo cap [] ps).map fun c => toString (byteLen c))
     | _, _ => "bad-op"
   | [] => "bad-op"
+
+def parseSide (ws : List String) : Option (List Child) :=
+  match splitAt "," ws with
+  | [u, f] =>
+    match parseList u, parseList f with
+    | some u, some f => some [.curated, .words u, .words f]
+    | _, _ => none
+  | _ => none
+
+def handleDfp (args : List String) : String :=
+  match splitAt "|" args with
+  | [a, b] =>
+    match parseSide a, parseSide b with
+    | some a, some b => if mergedEq hashInj a b then "ok 1" else "ok 0"
+    | _, _ => "bad-op"
+  | _ => "bad-op"
 
 end Harper.Driver.DictIO
